@@ -58,6 +58,17 @@ def orderValue (ins : SzIns) (cashAmount price acctCash : R) (closable posQty : 
     let amount := if amount0 < 0 then max amount0 (-closable) else amount0
     orderShares ins (R.ofInt amount) posQty
 
+/-- share-based stock APIs with `auto_switch_order_value` on: a BUY whose cost (frozen price × quantity + estimated fee) exceeds the
+available cash is replaced by `_order_value(account.cash)` — "use all remaining cash"; sells and affordable buys are unchanged.
+`price` = limit price or last price (the order's frozen price), `cost q` = estimated cost of a BUY of q shares at that price.
+The replacement amount is the available cash, counted as 0 when negative (repaired together with `_order_value`). -/
+def orderSharesAuto (ins : SzIns) (amount : R) (posQty closable : Int) (price acctCash : R) (cost : Int → R) : Option (Bool × Int) :=
+  match orderShares ins amount posQty with
+  | some (true, q) =>
+    if price * R.ofInt q + cost q ≤ acctCash then some (true, q)
+    else orderValue ins (R.pymax acctCash 0) price acctCash closable posQty cost
+  | r => r
+
 /-- `order_lots` -/
 def orderLots (ins : SzIns) (lots : R) (currentQty : Int) : Option (Bool × Int) :=
   orderShares ins (lots * R.ofInt (if ins.isKSH then 1 else ins.lot)) currentQty
